@@ -44,6 +44,8 @@ type Case struct {
 	Span    *Span                        `json:"span,omitempty"`
 	Spans   map[string]*Span             `json:"rule_spans,omitempty"` // per-rule override
 	Around  []string                     `json:"around,omitempty"`
+	// CLI: input kinds and flags of a command-line case (cli_test.go, TestCLIBreakingFlags)
+	CLI *CLIRun `json:"cli,omitempty"`
 }
 
 type Mod struct {
@@ -274,6 +276,10 @@ func TestReplay(t *testing.T) {
 	}
 	r := evid.R()
 	defer r.Begin(t)()
+	if c.CLI != nil {
+		runCLICase(context.Background(), t, r, &c)
+		return
+	}
 	runCase(context.Background(), t, r, &c)
 }
 
